@@ -649,6 +649,10 @@ where
     if matches!(&op.kind, OpKind::ForceUpdate(_)) || matches!(&op.kind, OpKind::Cancelled { op: inner, .. } if matches!(**inner, OpKind::ForceUpdate(_))) {
         ctx.force_update_since_open.set(true);
     }
+    let bg_in_flux = ctx.bg_lifecycle_pending.get();
+    if matches!(&op.kind, OpKind::CloseBg | OpKind::CreateBg | OpKind::RestoreBg | OpKind::ForceUpdate(_)) {
+        ctx.bg_lifecycle_pending.set(true);
+    }
     let fault_free = plan.faults.is_empty();
     let stepwise = plan.check_each_step && plan.sessions[si].clients.len() == 1;
     let fault_seq_before = world.inner.borrow().last_fault_seq;
@@ -937,7 +941,9 @@ where
                     world.probe("delete_in_closed_blob");
                 }
                 for r in new.iter() {
-                    if Some(r.blob) != active_before && Some(r.blob) != max_after {
+                    // written into a blob that was not the active one (while a background close or restore
+                    // was in flight the observation made before the call may already have been stale)
+                    if (Some(r.blob) != active_before || bg_in_flux) && Some(r.blob) != max_after {
                         ctx.closed_writes.borrow_mut().insert((r.blob, r.offset));
                     }
                 }
